@@ -659,6 +659,25 @@ func NewOpLib() *OpLib {
 		}
 		p.Txs = one("lp1", &ctypes.MsgUncommitTokens{Creator: w.A("lp1").Addr.String(), Denom: "ueden", Amount: amt})
 	})
+	l.Add("uncommit_eden_lp1_all", "uncommit", 0, func(w *World, p *BlockPlan) {
+		amt := w.CommittedOf(w.A("lp1").Addr, "ueden")
+		if !amt.IsPositive() {
+			amt = I(1)
+		}
+		p.Txs = one("lp1", &ctypes.MsgUncommitTokens{Creator: w.A("lp1").Addr.String(), Denom: "ueden", Amount: amt})
+	})
+	l.Add("uncommit_edenb_lp1_all", "uncommit", 0, func(w *World, p *BlockPlan) {
+		amt := w.CommittedOf(w.A("lp1").Addr, "uedenb")
+		if !amt.IsPositive() {
+			amt = I(1)
+		}
+		p.Txs = one("lp1", &ctypes.MsgUncommitTokens{Creator: w.A("lp1").Addr.String(), Denom: "uedenb", Amount: amt})
+	})
+	l.Add("ext_incentive_now_lp1", "ext_incentive", 0, func(w *World, p *BlockPlan) {
+		// starts in the very block that carries it: the first distribution is in the NEXT block's end-blocker
+		h := w.Height() + 1
+		p.Txs = one("lp1", &mctypes.MsgAddExternalIncentive{Sender: w.A("lp1").Addr.String(), RewardDenom: "uatom", PoolId: 1, FromBlock: h, ToBlock: h + 5, AmountPerBlock: I(1000)})
+	})
 	l.Add("vest_eden_lp1", "vest", 0, func(w *World, p *BlockPlan) {
 		cm := w.App.CommitmentKeeper.GetCommitments(w.RCtx(), w.A("lp1").Addr)
 		amt := cm.GetClaimedForDenom("ueden").QuoRaw(3)
